@@ -2,6 +2,7 @@ SPECIFICATION TraceSpec
 CONSTANTS
   RecordHist = FALSE
   FixF4 = FALSE
+  FixF36 = FALSE
   Users = {}
   Consumers = {}
   Actors = {}
